@@ -101,9 +101,10 @@ def scenario(rng, small):
     else:
         sims = sorted(rng.sample(range(lo, hi + 1), min(ntimes, hi - lo + 1)))
     rows, rid = [], 0
+    long_table = rng.random() < 0.04          # now and then a table of 20-60 rows with many rows per release time (order among equal times)
     for s in sims:
         t = start - s * dt if rev else start + s * dt
-        for _ in range(rng.choice([1, 1, 2, 3])):
+        for _ in range(rng.choice([1, 1, 2, 3]) if not long_table else rng.randrange(7, 16)):
             rid += 1
             rows.append(dict(t=t, mult=rng.choice([0, 1, 1, 2, 3]) if rng.random() > 0.02 else rng.choice([257, 700]),      # (now and then a row with hundreds of particles)
                              pay=dict(id=rid, x=rng.randrange(1 * QX, 9 * QX), y=rng.randrange(1 * QX, 7 * QX),
@@ -177,7 +178,7 @@ def run(tier, seed, family=FAMILY, pid="C04"):
     rep.add_tv("release-from-model", "ReleaseTrace", ms, mt, tlc.validate_traces("ReleaseTrace", mt), family=family)
     rep.extra["scenarios_generated_by_tlc"] = len(scns)
     rep.nontrivial = len({repr((s["cfg"], s["table"])) for s in scs + ms if s["cls"]["rows_in_window"]})
-    rep.rule = ("random release set-ups (window, direction, discrete/continuous, frequency, 1-4 file times x 1-3 rows, mult 0-3, "
+    rep.rule = ("random release set-ups (window, direction, discrete/continuous, frequency, 1-4 file times x 1-3 rows (now and then 7-15 rows per time, 20-60 in all), mult 0-3 (now and then hundreds), with or without an idle frequency, "
                 "column order, header or names, separators, time spellings); non-trivial = distinct (cfg, table) with a row inside the window")
     rep.assumptions = ["release tables sorted in simulation order, times on the model time grid, continuous file times on the tick grid (C04's quantifier)",
                        "positions given as X/Y (lon/lat conversion is C16)"]
